@@ -50,18 +50,19 @@ TextSem ==
    tF    |-> T(0, 0, 0, <<Prelude, "f">>, 7, {6}, 1),         \* self import; synthetic then natural
    tG    |-> T(1, 0, 0, <<>>, 0, {}, 0),                      \* lexical error
    tH    |-> T(0, 0, 0, <<Prelude>>, 0, {}, 1),               \* accepted by front end, back-end error
-   tN    |-> T(0, 0, 0, <<Prelude, "s">>, 2, {}, 0)]          \* ambiguous name: symbol resolution error
+   tN    |-> T(0, 0, 0, <<Prelude, "s">>, 2, {}, 0),          \* ambiguous name: symbol resolution error
+   tK    |-> T(0, 0, 0, <<Prelude>>, 10, {}, 0)]              \* attribute errors (messages that list sets of names)
 
 PreludeText == "tPre"
 
 (* File system: directory -> file -> text.  d3 repeats d1's `s` verbatim;  *)
 (* d2 has a *different* text under the same name.                           *)
 FS ==
-  [d1 |-> [a |-> "tA", s |-> "tS1", b |-> "tB", c |-> "tC", d |-> "tD", e |-> "tE", f |-> "tF", g |-> "tG", h |-> "tH", n |-> "tN"],
+  [d1 |-> [a |-> "tA", s |-> "tS1", b |-> "tB", c |-> "tC", d |-> "tD", e |-> "tE", f |-> "tF", g |-> "tG", h |-> "tH", n |-> "tN", k |-> "tK"],
    d2 |-> [s |-> "tS2"],
    d3 |-> [s |-> "tS1", a |-> "tA"]]
 
-FileNames == {"a", "s", "b", "c", "d", "e", "f", "g", "h", "n", "missing"}
+FileNames == {"a", "s", "b", "c", "d", "e", "f", "g", "h", "n", "k", "missing"}
 
 Has(d, f) == f \in DOMAIN FS[d]
 RECURSIVE Resolve(_, _)
@@ -76,8 +77,8 @@ DeepChoices ==
   {C("a", <<"d1">>, "inproc"), C("a", <<"d3", "d1">>, "split"), C("a", <<"d2", "d1">>, "inproc"),
    C("d", <<"d2", "d1">>, "inproc")}
 (* generator sets: schedules to replay in-process ("gen"), fresh processes ("cli") *)
-GenChoices == DeepChoices \cup {C("b", <<"d1">>, "inproc"), C("n", <<"d1">>, "inproc")}
-CliMains == {"a", "b", "c", "d", "f", "g", "h", "n", "s"}
+GenChoices == DeepChoices \cup {C("b", <<"d1">>, "inproc"), C("n", <<"d1">>, "inproc"), C("k", <<"d1">>, "inproc")}
+CliMains == {"a", "b", "c", "d", "f", "g", "h", "n", "s", "k"}
 CliChoices ==
   {C(m, <<"d1">>, mode) : m \in CliMains, mode \in {"inproc", "split"}}
   \cup {C("a", dirs, "inproc") : dirs \in {<<"d1", "d3">>, <<"d3", "d1">>, <<"d2", "d1">>}}
